@@ -26,6 +26,12 @@ pub struct OutEv {
     pub t: u64,
     pub kind: OutKind,
     pub key: String,
+    /// index (into the op list) of the last input delivered before this output (usize::MAX: none)
+    #[serde(default)]
+    pub in_idx: usize,
+    /// ticks executed since that input was delivered
+    #[serde(default)]
+    pub dt: u64,
 }
 
 pub fn parse_out(t: u64, s: &str) -> Option<OutEv> {
@@ -53,7 +59,7 @@ pub fn parse_out(t: u64, s: &str) -> Option<OutEv> {
     } else {
         (OutKind::Other, s.to_string())
     };
-    Some(OutEv { t, kind, key })
+    Some(OutEv { t, kind, key, in_idx: usize::MAX, dt: 0 })
 }
 
 /// Input marker recorded in the trace so oracles can relate outputs to inputs.
